@@ -477,8 +477,88 @@ def _driver_unit(nd, L, mode, frozen=None, delj=0, only_sweep=None):
                   min_obligations=L ** nd, timeout_s=1200, query_timeout_ms=60000, maxpaths=200)
 
 
+def _translator_validation_unit(seed):
+    """Validates the encoding, not the property: every kernel and the solver are executed on random rational inputs by
+    the LLVM-IR interpreter (exact arithmetic) and by the gcc-compiled current C through ctypes (float64), both through
+    the same .pyx-derived wrappers; results must agree to 1e-10 relative.  A disagreement is a harness error (exit 3)."""
+    def body(env):
+        import random
+        from fractions import Fraction as Fr
+        if not env.symbolic:
+            env.holds('n/a', True)
+            return
+        rng = random.Random(1234 + seed)
+        ir = cmods.load_ir()
+        sym_int = cmods.make_module('integration_c', K.PYX_INT, cmods.SymBackend(ir))
+        sym_tri = cmods.make_module('tridiag_cython', K.PYX_TRI, cmods.SymBackend(ir))
+        lib = cmods.build_clib()
+        c_int = cmods.make_module('integration_c', K.PYX_INT, cmods.CBackend(lib))
+        c_tri = cmods.make_module('tridiag_cython', K.PYX_TRI, cmods.CBackend(lib))
+        import os
+        os.unlink(lib)
+        rq = lambda lo, hi: Fr(rng.randint(int(lo * 64), int(hi * 64)), 64)
+        n = 0
+
+        def compare(name, sym_out, c_out):
+            a = np.array([float(S.Sym.lift(v).c) for v in np.asarray(sym_out, dtype=object).ravel()])
+            b = np.asarray(c_out, dtype=float).ravel()
+            if not np.all(np.abs(a - b) <= 1e-10 * (1 + np.abs(b))):
+                raise RuntimeError('translator validation failed for %s: max diff %g' % (name, np.abs(a - b).max()))
+        # solver
+        for sz in (3, 6):
+            a, c, r = [[rq(-1, 1) for _ in range(sz)] for _ in range(3)]
+            b = [rq(3, 5) for _ in range(sz)]
+            so = sym_tri.tridiag(*[S.constarray(v) for v in (a, b, c, r)])
+            co = c_tri.tridiag(*[np.array([float(x) for x in v]) for v in (a, b, c, r)])
+            compare('tridiag', so, co)
+            n += 1
+        for name, nd, ax in K.KERNELS:
+            L = 4 if nd <= 3 else 3
+            grid = [Fr(0)] + sorted(rq(0.05, 0.95) for _ in range(L - 2)) + [Fr(1)]
+            if len(set(grid)) != L:
+                grid = [Fr(i, L - 1) for i in range(L)]
+            phi = np.empty((L,) * nd, dtype=object)
+            for idx in np.ndindex(*phi.shape):
+                phi[idx] = rq(0, 4)
+            nu, gam, hh, dt = rq(0.5, 3), rq(-3, 3), rq(0, 1), Fr(rng.randint(1, 12), 64)
+            ms = [rq(0, 2) for _ in range(nd - 1)]
+            for dj in (0, 1):
+                sc = [nu] + ms + [gam, hh] + ([rq(0.5, 2)] if nd == 1 else []) + [dt]
+                if dj and nd > 2:
+                    continue
+                sargs = [S.constarray(phi)] + [S.constarray(grid)] * nd + [S.C(v) for v in sc] + [dj]
+                cargs = [np.array(phi, dtype=float)] + [np.array([float(g) for g in grid])] * nd + [float(v) for v in sc] + [dj]
+                if dj:
+                    # exp of a rational is not rational: evaluate the IR's exp numerically for this validation only
+                    import math
+                    ir.hooks['exp'] = lambda mod, x: S.C(Fr(math.exp(float(S.Sym.lift(x).c))))
+                try:
+                    so = getattr(sym_int, name)(*sargs)
+                finally:
+                    ir.hooks.pop('exp', None)
+                co = getattr(c_int, name)(*cargs)
+                compare(name + ('/delj' if dj else ''), so, co)
+                n += 1
+        for name, nd, ax in K.PRECALC:
+            L = 4 if nd == 2 else 3
+            arrs = []
+            for k in range(4):
+                a_ = np.empty((L,) * nd, dtype=object)
+                for idx in np.ndindex(*a_.shape):
+                    a_[idx] = rq(-1, 1) if k in (1, 3) else (rq(0, 4) if k == 0 else rq(3, 5))
+                arrs.append(a_)
+            phi, aa, bb, cc = arrs
+            dt = Fr(rng.randint(1, 12), 64)
+            so = getattr(sym_int, name)(S.constarray(phi), S.constarray(aa), S.constarray(bb), S.constarray(cc), S.C(dt))
+            co = getattr(c_int, name)(*[np.array(v, dtype=float) for v in (phi, aa, bb, cc)], float(dt))
+            compare(name, so, co)
+            n += 1
+        env.holds('%d kernel executions agree between the IR interpreter and the compiled C' % n, n >= 25)
+    return H.Unit('translator-validation', body, min_obligations=1, timeout_s=600)
+
+
 def units(tier, seed):
-    us = []
+    us = [_translator_validation_unit(seed)]
     thorough = tier == 'thorough'
     for n in range(3, (13 if thorough else 9)):
         us.append(_thomas_unit(n, 'T1'))
